@@ -125,7 +125,10 @@ def gen_direct(rng, k):
         for run in range(rng.randint(1, 3)):
             ops.append("di:%d" % run)
             for g in range(0, rng.randint(1, 3 * gap + 2)):
-                if rng.random() < 0.8:
+                if g != 0 and g % gap == 0 and rng.random() < 0.2:
+                    # weights that sum to 0 / a small value / 2^64 - 1 modulo 2^64 at the coming reshuffle
+                    ops.append("sz:%d" % rng.choice([0, 0, 1, 5, M64]))
+                elif rng.random() < 0.8:
                     ops.append(ev())
                 ops.append("ds:%d" % g)
             ops.append("dc:%d" % run)
@@ -148,7 +151,47 @@ def gen_direct(rng, k):
                 maybe_empty = True
             else:
                 ops.append(ev())
-    return {"mode": "D", "n": n, "perc": perc, "gap": gap, "seed": seed, "ops": ops}
+    ds = ""
+    if rng.random() < 0.3:               # classification data: 2..5 classes, round-robin or singleton classes
+        ds = "/%d/%s" % (rng.randint(2, 5), rng.choice("ms"))
+        if rng.random() < 0.7:
+            n = rng.randint(2, 12)
+    return {"mode": "D", "n": n, "ds": ds, "perc": perc, "gap": gap, "seed": seed, "ops": ops}
+
+
+def boundary_direct(rng):
+    """cases aimed at the boundaries: weight sums that wrap to 0 / small values, tiny classification sets"""
+    out = []
+    for n in (2, 3, 5, 50):
+        for t in (0, 1, M64):
+            out.append({"mode": "D", "n": n, "ds": "", "perc": 20, "gap": 1, "seed": rng.randint(1, 2**31 - 1),
+                        "ops": ["di:0", "sz:%d" % t, "ds:1", "ev:7:10:b", "sz:%d" % t, "ds:2", "dc:0"]})
+    for n, kc, pat in ((2, 2, "m"), (3, 2, "m"), (3, 3, "s"), (4, 2, "s"), (5, 4, "s"), (7, 3, "m"), (12, 5, "s")):
+        for _ in range(3):
+            out.append({"mode": "D", "n": n, "ds": "/%d/%s" % (kc, pat), "perc": 30, "gap": 1,
+                        "seed": rng.randint(1, 2**31 - 1),
+                        "ops": ["hi:0", "di:0", "ev:3:100:b", "ds:1", "ev:4:100:t", "ds:2", "ds:3", "dc:0"]})
+    return out
+
+
+def boundary_search(rng):
+    """parameters explicitly SET by the user at the ends of their ranges; classification data"""
+    out = []
+
+    def case(strat, n, perc, gap, ds="", cache=0, runs=1, gens=2):
+        out.append({"mode": "S", "strategy": strat, "n": n, "ds": ds, "perc": perc, "gap": gap,
+                    "seed": rng.randint(1, 2**31 - 1), "runs": runs, "gens": gens, "cache": cache})
+    for perc in (0, 1, 99):
+        case("h", 20, perc, 2, runs=2)
+    case("h", 100, 0, 2)
+    case("h", 130, 99, 2)
+    case("d", 20, 20, 1, gens=3)
+    case("d", 20, 20, 2, gens=4, cache=8)
+    case("d", 2, 20, 1, ds="/2/m", gens=3)
+    case("d", 6, 20, 1, ds="/3/s", gens=3)
+    case("d", 12, 20, 2, ds="/5/s", gens=4, runs=2)
+    case("h", 12, 33, 2, ds="/2/m")
+    return out
 
 
 def gen_search(rng, k, thorough):
@@ -159,8 +202,11 @@ def gen_search(rng, k, thorough):
     gap = "-" if (strat == "d" and open_par) else rng.randint(1, 4)
     if strat == "d" and n > 150:
         n = 100
-    c = {"mode": "S", "strategy": strat, "n": n, "perc": perc, "gap": gap, "seed": rng.randint(1, 2**31 - 1),
+    c = {"mode": "S", "strategy": strat, "n": n, "ds": "", "perc": perc, "gap": gap, "seed": rng.randint(1, 2**31 - 1),
          "runs": rng.randint(1, 3), "gens": rng.randint(1, 5)}
+    if k % 5 == 4:                       # classification data
+        c["ds"] = "/%d/%s" % (rng.randint(2, 5), rng.choice("ms"))
+        c["n"] = rng.randint(2, 12)
     # dss: half of the runs go through the real caching proxy (evaluator_proxy) around the training evaluator
     c["cache"] = rng.choice([7, 8, 10]) if (strat == "d" and (k // 2) % 2 == 1) else 0
     if c["cache"]:
@@ -170,9 +216,9 @@ def gen_search(rng, k, thorough):
 
 def harness_line(c):
     if c["mode"] == "D":
-        return "D %d %s %s %d %s" % (c["n"], c["perc"], c["gap"], c["seed"], " ".join(c["ops"]))
-    return "S %s %d %s %s %d %d %d %d" % (c["strategy"], c["n"], c["perc"], c["gap"], c["seed"], c["runs"], c["gens"],
-                                         c.get("cache", 0))
+        return "D %d%s %s %s %d %s" % (c["n"], c.get("ds", ""), c["perc"], c["gap"], c["seed"], " ".join(c["ops"]))
+    return "S %s %d%s %s %s %d %d %d %d" % (c["strategy"], c["n"], c.get("ds", ""), c["perc"], c["gap"], c["seed"],
+                                           c["runs"], c["gens"], c.get("cache", 0))
 
 
 # ------------------------------------------------------------------ oracle
@@ -313,6 +359,9 @@ def run_direct(ck, cases, houts, crashes, model, base):
             J.conservation(where, ids0, T1, V1)
             if kind == "ev":
                 toks.append(ev_token(ev_incs(op, cur[0], cur[1])))
+            elif kind == "sz":
+                before = {e[0]: e[1] for e in cur[0] + cur[1]}
+                toks.append(ev_token({e[0]: (e[1] - before.get(e[0], 0)) & M64 for e in T1 + V1}))
             else:
                 toks.append("%s:%s:%s" % (kind, arg, draws))
             if kind == "hi":
@@ -359,7 +408,7 @@ def run_direct(ck, cases, houts, crashes, model, base):
         mobs = [p.split() for p in mo.split(" # ")][1:]
         for k, o in enumerate(obs):
             op, ret, ct, cv, draws, Ts, Vs = o
-            name = "ev" if op.startswith("ev") else ":".join(op.split(":")[:2])
+            name = "ev" if op[:2] in ("ev", "sz") else ":".join(op.split(":")[:2])
             want = [name, ret, ct, cv, "0", Ts, Vs]
             got = mobs[k] if k < len(mobs) else ["(missing)"]
             if got != want:
@@ -398,6 +447,12 @@ def run_search(ck, cases, houts, crashes, model, base):
         eperc, edss = end[1], end[2]
         perc = DFLT_PERC if c["perc"] == "-" else c["perc"]
         gap = DFLT_DSS if c["gap"] == "-" else c["gap"]
+        if (c["perc"] != "-" and strat == "h" and eperc != str(c["perc"])) or \
+           (c["gap"] != "-" and strat == "d" and edss != str(c["gap"])):
+            bad("src_search:tune-overrides-user-setting",
+                "src_search::run (%s, %d rows): the user set validation_percentage=%s / dss=%s, after tune_parameters "
+                "the environment holds %s / %s" % ("hold-out" if strat == "h" else "dss", c["n"], c["perc"], c["gap"],
+                                                   eperc, edss))
         if strat == "h" and eperc == "-":
             bad("src_search:holdout:parameter-left-open",
                 "src_search::run with hold-out and validation_percentage left open: the parameter is still "
@@ -636,8 +691,8 @@ def run(ck):
     else:
         nd = 6000 if ck.thorough else 420
         ns = 240 if ck.thorough else 36
-        dcases = [gen_direct(rng, k) for k in range(nd)]
-        scases = [gen_search(rng, k, ck.thorough) for k in range(ns)]
+        dcases = [gen_direct(rng, k) for k in range(nd)] + boundary_direct(rng)
+        scases = [gen_search(rng, k, ck.thorough) for k in range(ns)] + boundary_search(rng)
         tsizes = list(range(0, 2000)) + [rng.randint(2000, 10**7) for _ in range(2000)]
 
     lines = [harness_line(c) for c in dcases + scases] + ["T %d" % s for s in tsizes]
